@@ -3,7 +3,8 @@
    comment grammar (any characters except CR / LF after the first space, spaces included), with their bytes. *)
 EXTENDS SshWire, Json, IOUtils, SequencesExt, FiniteSets, TLC
 Protos == {<<50, 46, 48>>, <<49, 46, 57, 57>>}
-Softwares == {<<79, 112, 101, 110, 83, 83, 72, 95, 56, 46, 50, 112, 49>>, <<100, 114, 111, 112, 98, 101, 97, 114, 95, 50, 48, 50, 48, 46, 56, 49>>, <<120>>}
+Softwares == {<<79, 112, 101, 110, 83, 83, 72, 95, 56, 46, 50, 112, 49>>, <<100, 114, 111, 112, 98, 101, 97, 114, 95, 50, 48, 50, 48, 46, 56, 49>>, <<120>>,
+              <<79, 112, 101, 110, 83, 83, 72, 95, 102, 111, 114, 95, 87, 105, 110, 100, 111, 119, 115, 95, 56, 46, 49>>, <<79, 112, 101, 110, 83, 83, 72, 95, 55, 46, 52, 95, 104, 112, 110, 49, 52, 118, 49>>, <<100, 114, 111, 112, 98, 101, 97, 114, 95, 50, 48, 49, 57, 46, 55, 56, 95, 120>>, <<108, 105, 98, 115, 115, 104, 95, 48, 46, 57, 46, 54>>, <<108, 105, 98, 115, 115, 104, 50, 95, 49, 46, 49, 48, 46, 48, 95, 68, 69, 86>>, <<79, 112, 101, 110, 83, 83, 72, 95>>, <<95, 56, 46, 49>>, <<109, 111, 100, 95, 115, 102, 116, 112, 47, 48, 46, 57, 46, 57>>, <<83, 117, 110, 95, 83, 83, 72, 95, 49, 46, 49, 46, 52>>, <<82, 111, 109, 83, 83, 104, 101, 108, 108, 95, 52, 46, 54, 50>>, <<120, 95>>, <<97, 95, 95, 98>>}   \* several vendor separators, empty vendor / version parts
 Comments == {<<99>>, <<116, 119, 111, 32, 32, 115, 112, 97, 99, 101, 115>>, <<116, 97, 98, 9, 120>>, <<116, 114, 97, 105, 108, 32>>, <<97, 32, 98, 32, 99>>, <<68, 101, 98, 105, 97, 110, 45, 49, 48, 43, 100, 101, 98, 49, 48, 117, 50, 32, 32, 98, 117, 105, 108, 100, 32, 52, 50>>, <<120, 61, 49, 59, 121>>}
 Banners == {[proto |-> p, software |-> s, has_comment |-> FALSE, comment |-> <<>>] : p \in Protos, s \in Softwares}
       \cup {[proto |-> p, software |-> s, has_comment |-> TRUE, comment |-> c] : p \in Protos, s \in Softwares, c \in Comments}
